@@ -803,6 +803,12 @@ impl TreeCheck {
                 uniq.push(s.clone());
             }
         }
+        // a call with very many failure sites (the storm template has about eighty) is re-run for an evenly
+        // spaced selection of thirty of them
+        if uniq.len() > 30 {
+            let n = uniq.len();
+            uniq = (0..30).map(|i| uniq[i * n / 30].clone()).collect();
+        }
         let mut v: Vec<BTreeSet<Site>> = uniq.iter().map(|s| [s.clone()].into_iter().collect()).collect();
         // two deterministic multi-site sets
         if uniq.len() >= 3 {
@@ -1287,7 +1293,7 @@ impl Check for TreeCheck {
     fn budget(id: &str, tier: Tier) -> Budget {
         let cases = match (fault_enumerating(id), tier) {
             (true, Tier::Quick) => 16_000,
-            (true, Tier::Thorough) => 200_000,
+            (true, Tier::Thorough) => 120_000,
             (false, Tier::Quick) => 40_000,
             (false, Tier::Thorough) => 600_000,
         };
